@@ -73,6 +73,13 @@ structure Cfg where
   /-- the buffer `dataReceivedRECORDS` leaves behind when it raises (the record it choked on has
       already been sliced off).  Arbitrary in all theorems. -/
   recRest : Bytes → Bytes
+  /-- the *description* (`"->tcp:host:port"`, `"->relay:tcp:host:port"`) of outbound contender `k`,
+      as a number: equal keys = the peer's hints name the same host:port twice.  Arbitrary in all
+      theorems; only the variant `_connect` that keeps its contenders in a dict looks at it. -/
+  hintKey : Nat → Nat := id
+  /-- does building the endpoint of outbound contender `k` (`endpoint_from_hint_obj`) raise?
+      Observed by the harness on the real function; arbitrary in all theorems. -/
+  hintRaises : Nat → Bool := fun _ => false
 
 /-- `_check_and_remove`: `none` = `BadHandshake`; `(false, _)` = keep waiting -/
 def checkAndRemove (buf expected : Bytes) : Option (Bool × Bytes) :=
@@ -452,8 +459,10 @@ def attach (w : World) (k : Nat) : World :=
     | .done (some e) _ => failCallbacks w1 k e
     | _ => w1
 
-/-- `connect()` (the transit key is set) -/
-def evConnect (w : World) : Option World :=
+/-- `connect()` (the transit key is set) as `Common._connect` is written: every started attempt
+    is appended to the list `contenders`, building an endpoint never raises, all of the list goes
+    to `there_can_be_only_one` and under `_not_forever`. -/
+def evConnectHead (w : World) : Option World :=
   if w.started then none else
   let hasDirect := w.cont.any (fun c => c.kind = .direct)
   let (cont', seq') := startContenders w.now w.seq hasDirect w.cont w.cont
@@ -467,6 +476,46 @@ def evConnect (w : World) : Option World :=
     -- `_not_forever`: callLater, then addBoth(_done) — which cancels the timer at once if fired
     if w3.fired then some { w3 with seq := w3.seq + 1 }
     else some { w3 with deadline := some (w3.now + Gen.Transit.CONNECT_DEADLINE_s, w3.seq), seq := w3.seq + 1 }
+
+def isListenerKind (w : World) (k : Nat) : Bool :=
+  match w.cont[k]? with
+  | some c => decide (c.kind = .listener)
+  | none => false
+
+/-- the same for a `_connect` whose source does NOT have the two generated properties
+    (`connect_contenders_is_list`, `connect_endpoint_errors_contained`): an endpoint that cannot be
+    built makes `_connect` raise on the spot — the attempts started before it keep running, wrapped
+    by nothing; contenders kept in a dict keyed by description lose all but the last attempt of a
+    description.  No theorem is about this variant; it keeps the model next to such a source. -/
+def evConnectAlt (w : World) : Option World :=
+  if w.started then none else
+  let n := w.cont.length
+  let hasDirect := w.cont.any (fun c => c.kind = .direct)
+  let (cont', seq') := startContenders w.now w.seq hasDirect w.cont w.cont
+  let bad := if Gen.Transit.connect_endpoint_errors_contained then none
+             else (List.range n).find? (fun k => !isListenerKind w k && w.cfg.hintRaises k)
+  match bad with
+  | some j =>
+    let contJ := (List.range n).filterMap (fun k => if k < j then cont'[k]? else w.cont[k]?)
+    some { w with cont := contJ, seq := seq', started := true, t0 := w.now, result := .fail .valueError }
+  | none =>
+    let w1 := { w with cont := cont', seq := seq', started := true, t0 := w.now }
+    if w1.cont.isEmpty then
+      some { w1 with result := .fail .transitError }
+    else
+      let all := List.range n
+      let ks := if Gen.Transit.connect_contenders_is_list then all
+                else all.filter (fun k => isListenerKind w k ||
+                  !(all.any (fun k' => k < k' && !isListenerKind w k' && w.cfg.hintKey k' == w.cfg.hintKey k)))
+      let w2 := { w1 with remaining := ks }
+      let w3 := ks.foldl attach w2
+      if w3.fired then some { w3 with seq := w3.seq + 1 }
+      else some { w3 with deadline := some (w3.now + Gen.Transit.CONNECT_DEADLINE_s, w3.seq), seq := w3.seq + 1 }
+
+/-- `connect()`: which of the two it is is read off the source (generated flags) -/
+def evConnect (w : World) : Option World :=
+  if Gen.Transit.connect_contenders_is_list && Gen.Transit.connect_endpoint_errors_contained then evConnectHead w
+  else evConnectAlt w
 
 /-! ### the clock -/
 
@@ -706,16 +755,25 @@ def withRaised (p : World × Option Err) : World × String :=
   | some e => (p.1, "raised=" ++ e.name ++ " " ++ showWorld p.1)
   | none => (p.1, showWorld p.1)
 
+/-- per-contender hint data of a `new`/`duo` line: `-` or a comma list indexed by contender -/
+def specList (t : String) : Option (List Nat) := if t == "-" then some [] else natList? (t.splitOn ",")
+
+def drvCfg (sender : Bool) (s e y : Bytes) (keys raises : List Nat) : Cfg :=
+  { isSender := sender, sendThis := s, expectThis := e, relayHs := y, recLayer := drvRecLayer, recRest := drvRecRest,
+    hintKey := fun k => match keys[k]? with | some x => x | none => 1000 + k,
+    hintRaises := fun k => match raises[k]? with | some x => x != 0 | none => false }
+
+def drvNew (w : World) (role l nd rel s e y keys raises : String) : World × String :=
+  match nd.toNat?, fromHex? s, fromHex? e, fromHex? y, specList rel, specList keys, specList raises with
+  | some nd, some s, some e, some y, some rel, some keys, some raises =>
+    (initWorld (drvCfg (role == "S") s e y keys raises) (l == "1") nd rel, "ok")
+  | _, _, _, _, _, _, _ => (w, "bad-op")
+
 def drvStep (w : World) (line : String) : World × String :=
   match tokens line with
   | ["reset"] => (drvInit, "ok")
-  | ["new", role, l, nd, rel, s, e, y] =>
-    match nd.toNat?, fromHex? s, fromHex? e, fromHex? y,
-          (if rel == "-" then some [] else natList? (rel.splitOn ",")) with
-    | some nd, some s, some e, some y, some rel =>
-      (initWorld { isSender := role == "S", sendThis := s, expectThis := e, relayHs := y, recLayer := drvRecLayer, recRest := drvRecRest }
-        (l == "1") nd rel, "ok")
-    | _, _, _, _, _ => (w, "bad-op")
+  | ["new", role, l, nd, rel, s, e, y] => drvNew w role l nd rel s e y "-" "-"
+  | ["new", role, l, nd, rel, s, e, y, keys, raises] => drvNew w role l nd rel s e y keys raises
   | ["inbound"] => match evInbound w with | some p => withRaised p | none => (w, "skip")
   | ["connect"] => match evConnect w with | some w' => (w', showWorld w') | none => (w, "skip")
   | ["connected", k] =>
@@ -834,19 +892,20 @@ def duoStep (d : Duo) : List String → Duo × String
      | _, _ => (d, "bad-op"))
   | _ => (d, "bad-op")
 
+def drvDuo (st : DrvSt) (lS ndS relS lR ndR relR s e yS yR kS xS kR xR : String) : DrvSt × String :=
+  match ndS.toNat?, ndR.toNat?, fromHex? s, fromHex? e, fromHex? yS, fromHex? yR, specList relS, specList relR,
+        specList kS, specList xS, specList kR, specList xR with
+  | some ndS, some ndR, some s, some e, some yS, some yR, some relS, some relR, some kS, some xS, some kR, some xR =>
+    ({ st with duo := some (initDuo (drvCfg true s e yS kS xS) (drvCfg false e s yR kR xR)
+        (lS == "1") ndS relS (lR == "1") ndR relR) }, "ok")
+  | _, _, _, _, _, _, _, _, _, _, _, _ => (st, "bad-op")
+
 def drvStep2 (st : DrvSt) (line : String) : DrvSt × String :=
   match tokens line with
   | ["reset"] => ({ w := drvInit, duo := none }, "ok")
-  | ["duo", lS, ndS, relS, lR, ndR, relR, s, e, yS, yR] =>
-    (match ndS.toNat?, ndR.toNat?, fromHex? s, fromHex? e, fromHex? yS, fromHex? yR,
-          (if relS == "-" then some [] else natList? (relS.splitOn ",")),
-          (if relR == "-" then some [] else natList? (relR.splitOn ",")) with
-     | some ndS, some ndR, some s, some e, some yS, some yR, some relS, some relR =>
-       ({ st with duo := some (initDuo
-           { isSender := true, sendThis := s, expectThis := e, relayHs := yS, recLayer := drvRecLayer, recRest := drvRecRest }
-           { isSender := false, sendThis := e, expectThis := s, relayHs := yR, recLayer := drvRecLayer, recRest := drvRecRest }
-           (lS == "1") ndS relS (lR == "1") ndR relR) }, "ok")
-     | _, _, _, _, _, _, _, _ => (st, "bad-op"))
+  | ["duo", lS, ndS, relS, lR, ndR, relR, s, e, yS, yR] => drvDuo st lS ndS relS lR ndR relR s e yS yR "-" "-" "-" "-"
+  | ["duo", lS, ndS, relS, lR, ndR, relR, s, e, yS, yR, kS, xS, kR, xR] =>
+    drvDuo st lS ndS relS lR ndR relR s e yS yR kS xS kR xR
   | toks =>
     match toks with
     | t :: _ =>
